@@ -689,8 +689,8 @@ func runC10(c *Ctx) {
 		c10Replay(c)
 		return
 	}
-	nprog := c.Pick(3, 60)
-	per := c.Pick(60, 340)
+	nprog := c.Pick(2, 60)
+	per := c.Pick(75, 340)
 	progs := make([]*c10Prog, nprog)
 	for i := range progs {
 		p := &c10Prog{Idx: i, Env: c10GenEnv(rng, i, 10), Used: map[string]*c10Type{}}
